@@ -1,23 +1,29 @@
-//! `pool` cases (C12): operation sequences on the real `AsyncPool` of /repo/device over the fake
-//! libusb of fake_usb.rs.  One case per line:
-//!   pool nplan { 0 code | 1 status len delay }*  nops { op arg }*
+//! `pool` / `pool2` cases (C12): operation sequences on the real `AsyncPool` of /repo/device over
+//! the fake libusb of fake_usb.rs.  One case per line:
+//!   pool  nplan { 0 code | 1 status len delay }*       nops { op arg }*
+//!   pool2 nplan { 0 code | 1 status len delay clat }*  nev { code }*  nops { op arg }*
 //!     plan entry per libusb_submit_transfer call: 0 = refused with libusb error `code` (negative),
 //!       1 = accepted, completes with libusb_transfer_status `status` and `len` bytes once `delay`
-//!       further poll operations have begun (or CANCELLED when cancelled first); past the end of
-//!       the plan: accepted, completes at once with a full buffer
+//!       further poll operations have begun; once cancelled it completes with CANCELLED after `clat`
+//!       further successful event-handling calls (`pool`: 0); past the end of the plan: accepted,
+//!       completes at once with a full buffer
+//!     event plan: return code of each libusb_handle_events_locked call in turn (0 = events are
+//!       handled, otherwise a libusb error code, nothing is handled); past the end: 0
 //!     ops: 1 len submit | 2 ms poll | 3 0 pending | 4 0 cancel_all | 5 0 drop the pool |
-//!          6 0 new pool | 7 0 is_empty
-//! Output: per op  1 -> 0 | 1 class ;  2 -> 0 len data_ok | 1 class ;  3 -> n ;  4 -> (nothing) ;
-//!   5 -> in_flight_after freed_while_in_flight ;  6 -> (nothing) ;  7 -> 0|1 ;  a panic -> 2 and the case ends;
-//!   then -9 submit_calls accepted refused completed cancel_not_found in_flight freed_while_in_flight
-//! A case that does not end (a drop / poll waiting for a transfer that was never submitted) makes
-//! the process exit with status 3 (vplib marks the case [4]).
+//!          6 0 new pool | 7 0 is_empty | 9 code append `code` to the event plan
+//! Output: per op  1 -> 0 | 1 class ;  2 -> 0 len data_ok pending_after | 1 class pending_after | -1 (empty pool) ;
+//!   3 -> n ;  4 -> (nothing) ;  5 -> in_flight_after freed_while_in_flight event_calls ;  6, 9 -> (nothing) ;
+//!   7 -> 0|1 ;  a panic -> 2 -9 -1 and the case ends;
+//!   then -9 submit_calls accepted refused completed cancel_not_found in_flight freed_while_in_flight event_calls
+//! Time is virtual (see fake_usb.rs): no operation sleeps.  A case that does not end (a drop / poll
+//! waiting for a transfer that was never submitted) makes the process exit with status 3 after 6 real
+//! seconds (vplib marks the case [4]).
 mod fake_usb;
 
 use std::collections::VecDeque;
 use std::panic::{catch_unwind, AssertUnwindSafe};
 use std::sync::atomic::{AtomicU64, Ordering};
-use std::time::{Duration, Instant};
+use std::time::Duration;
 
 use cameleon_device::u3v::async_read::AsyncPool;
 use cameleon_device::u3v::{Error, LibUsbError};
@@ -51,11 +57,12 @@ fn class(e: &Error) -> i64 {
 
 fn main() {
     std::panic::set_hook(Box::new(|_| {}));
-    let t0 = Instant::now();
+    // the watchdog runs on the kernel's clock: Instant is virtual in this process
+    let t0 = fake_usb::real_ms();
     std::thread::spawn(move || loop {
         std::thread::sleep(Duration::from_millis(50));
         let s = CASE_START_MS.load(Ordering::SeqCst);
-        if s != 0 && t0.elapsed().as_millis() as u64 + 1 > s + 6000 {
+        if s != 0 && fake_usb::real_ms() - t0 + 1 > s + 6000 {
             std::process::exit(3);
         }
     });
@@ -77,20 +84,24 @@ fn main() {
             continue;
         }
         let mut it = l.split_whitespace();
-        if it.next() != Some("pool") {
-            println!("-99");
-            continue;
-        }
+        let v2 = match it.next() {
+            Some("pool") => false,
+            Some("pool2") => true,
+            _ => {
+                println!("-99");
+                continue;
+            }
+        };
         let toks: Vec<i64> = it.map(|t| t.parse().unwrap()).collect();
-        CASE_START_MS.store(t0.elapsed().as_millis() as u64 + 1, Ordering::SeqCst);
-        let out = run_case(&chan, &toks);
+        CASE_START_MS.store(fake_usb::real_ms() - t0 + 1, Ordering::SeqCst);
+        let out = run_case(&chan, &toks, v2);
         CASE_START_MS.store(0, Ordering::SeqCst);
         let s: Vec<String> = out.iter().map(|v| v.to_string()).collect();
         println!("{}", s.join(" "));
     }
 }
 
-fn run_case(chan: &cameleon_device::u3v::ReceiveChannel, t: &[i64]) -> Vec<i64> {
+fn run_case(chan: &cameleon_device::u3v::ReceiveChannel, t: &[i64], v2: bool) -> Vec<i64> {
     let mut p = 0;
     let mut next = || {
         let v = t[p];
@@ -105,8 +116,15 @@ fn run_case(chan: &cameleon_device::u3v::ReceiveChannel, t: &[i64]) -> Vec<i64> 
                 let status = next() as i32;
                 let len = next() as usize;
                 let delay = next() as u64;
-                plan.push(Plan::Accept { status, len, delay });
+                let clat = if v2 { next() as u64 } else { 0 };
+                plan.push(Plan::Accept { status, len, delay, clat });
             }
+        }
+    }
+    let mut evplan = vec![];
+    if v2 {
+        for _ in 0..next() {
+            evplan.push(next() as i32);
         }
     }
     let nops = next();
@@ -114,7 +132,7 @@ fn run_case(chan: &cameleon_device::u3v::ReceiveChannel, t: &[i64]) -> Vec<i64> 
     for _ in 0..nops {
         ops.push((next(), next()));
     }
-    fake_usb::reset(plan);
+    fake_usb::reset(plan, evplan);
 
     let mut out: Vec<i64> = vec![];
     // the buffers outlive every pool of the case; (buffer, number of the accepted transfer) of the
@@ -158,15 +176,16 @@ fn run_case(chan: &cameleon_device::u3v::ReceiveChannel, t: &[i64]) -> Vec<i64> 
                                     }
                                     None => false,
                                 };
-                                out.extend([0, len as i64, ok as i64]);
+                                out.extend([0, len as i64, ok as i64, pl.pending() as i64]);
                             }
                             Err(e) => {
                                 let c = class(&e);
-                                // a time-out leaves the transfer pending, every other error reaped it
-                                if !(c == 6 && pl.pending() == expect.len()) {
+                                // the error of a completed transfer reaped it; a time-out or a failure of
+                                // the event handling leaves it pending
+                                if pl.pending() < expect.len() {
                                     expect.pop_front();
                                 }
-                                out.extend([1, c]);
+                                out.extend([1, c, pl.pending() as i64]);
                             }
                         }
                     }
@@ -183,7 +202,7 @@ fn run_case(chan: &cameleon_device::u3v::ReceiveChannel, t: &[i64]) -> Vec<i64> 
                     drop(pl);
                     expect.clear();
                     let st = fake_usb::state();
-                    out.extend([st.inflight.len() as i64, st.freed_while_inflight as i64]);
+                    out.extend([st.inflight.len() as i64, st.freed_while_inflight as i64, st.event_calls as i64]);
                 }
             }
             6 => {
@@ -192,6 +211,7 @@ fn run_case(chan: &cameleon_device::u3v::ReceiveChannel, t: &[i64]) -> Vec<i64> 
                 }
             }
             7 => out.push(pool.as_ref().map(|p| p.is_empty() as i64).unwrap_or(-1)),
+            9 => fake_usb::state().evplan.push_back(arg as i32),
             _ => panic!("bad op"),
         }));
         if r.is_err() {
@@ -202,9 +222,11 @@ fn run_case(chan: &cameleon_device::u3v::ReceiveChannel, t: &[i64]) -> Vec<i64> 
     if panicked {
         // the pool may be in an undefined state: leak it
         std::mem::forget(pool.take());
-    } else {
-        drop(pool.take());
+        out.extend([-9, -1]);
+        drop(buffers);
+        return out;
     }
+    drop(pool.take());
     let st = fake_usb::state();
     out.extend([
         -9,
@@ -215,6 +237,7 @@ fn run_case(chan: &cameleon_device::u3v::ReceiveChannel, t: &[i64]) -> Vec<i64> 
         st.cancel_not_found as i64,
         st.inflight.len() as i64,
         st.freed_while_inflight as i64,
+        st.event_calls as i64,
     ]);
     drop(st);
     drop(buffers);
